@@ -201,6 +201,16 @@ Theorem C02_chunked_cut_detected : forall meth bufsize code reason fs tfs v cs l
 Proof. exact chunked_cut_detected. Qed.
 Print Assumptions C02_chunked_cut_detected.
 
+(* Transport.MaxResponseHeaderBytes is a budget per response head: when every head of the
+   exchange - each interim 1xx response and the final response - is within the limit BY ITSELF,
+   the limited reader delivers exactly what the unlimited one delivers, however large the heads
+   are together: interim responses do not eat the final response's header budget. *)
+Theorem C02_header_budget_is_per_head : forall meth bufsize lim fuel k s,
+  heads_fit fuel meth bufsize lim s = true ->
+  read_final_lim fuel meth bufsize lim k s = read_final fuel meth bufsize k s.
+Proof. exact budget_is_per_head. Qed.
+Print Assumptions C02_header_budget_is_per_head.
+
 (* ---------- HTTP/2, HTTP/3 ---------- *)
 
 (* h2_body_concat: EVERY partition into DATA frames, ANY padding, declared length or not *)
@@ -289,6 +299,16 @@ Theorem C02_close_unread_returns_credit : forall w n,
   cw_run (cw_init w) [CData n 0; CClose n] = Some ({| cw_avail := w; cw_unsent := 0; cw_buf := 0 |}, n).
 Proof. exact close_unread_returns_credit. Qed.
 Print Assumptions C02_close_unread_returns_credit.
+
+(* An HTTP/2 stream cut before END_STREAM is never delivered as complete: whatever DATA frames
+   arrived (any number, any padding), with or without a declared length, if the connection ends
+   with a clean FIN or a GOAWAY + FIN, or the stream is reset, the caller's read ends with an
+   error - never with io.EOF. *)
+Theorem C02_h2_cut_never_complete : forall fs k after cl,
+  open_frames fs -> stream_cut k ->
+  snd (h2_read cl false (h2_events fs false ++ k :: after)) <> H2Clean.
+Proof. exact h2_cut_never_complete. Qed.
+Print Assumptions C02_h2_cut_never_complete.
 
 (* lower-case names on the wire, the same canonical multimap for the caller *)
 Theorem C02_h2_header_collect : forall fs,
